@@ -1,7 +1,7 @@
 CONSTANTS
   Programs = {}
   CanonOrder <- MCOrderB
-  Focus = {"struct", "ns", "errs"}
+  Focus = {"struct", "ns", "errs", "nolate"}
 INIT TInit
 NEXT TNext
 POSTCONDITION Consumed
